@@ -42,8 +42,7 @@ Apply(r) ==
       [] r.e = "rx"  -> RxBeats(r.bytes) /\ UNCHANGED wvars
       [] r.e = "out" -> Out(r.addr, r.tog, r.payload, r.crc_ok, r.resp) /\ Consumed
       [] r.e = "in"  -> In(r.addr, r.resp, r.host_ack) /\ Consumed
-      [] r.e = "ctl" -> /\ Ctl(r.addr, r.req, r.outcome, r.data) /\ pk' = <<>> /\ UNCHANGED <<sol, tok>>
-                        /\ bus' = AfterCtl(r.addr, r.req, r.outcome)
+      [] r.e = "ctl" -> Ctl(r.addr, r.req, r.outcome, r.data) /\ Consumed
       [] OTHER -> UNCHANGED svars
 
 TInit == SInit /\ tid \in 1..Len(Logs) /\ l = 1 /\ status = "ok"
